@@ -97,7 +97,7 @@ def _run_target(job):
                         runs.append({"verdict": "skipped", "why": str(w)})
                         continue
                     try:
-                        runs.append(_with_alarm(15, replay.run_witness, name, w))
+                        runs.append(_with_alarm(15, replay.run_witness, name, w, None, None, tag))
                     except BaseException as e:  # noqa
                         runs.append({"verdict": "skipped", "why": "replay crashed or timed out: %r" % (e,)})
                     if runs[-1].get("verdict") == "reproduced":
@@ -244,6 +244,14 @@ def report(prop, spec, args, seed, ded, bres, findings, t0):
     os.makedirs(os.path.join(OUT, "evidence"), exist_ok=True)
     rdir = os.path.join(OUT, "replays", prop)
     os.makedirs(rdir, exist_ok=True)
+    if not (args.no_bounded or args.no_deductive):
+        # a full run owns the replay directory of its property: files of earlier runs would be stale
+        for f in os.listdir(rdir):
+            if f.endswith(".json"):
+                try:
+                    os.remove(os.path.join(rdir, f))
+                except OSError:
+                    pass
     violations = []  # (replay path, suffix)
     known_printed = []
     errors = []
